@@ -10,6 +10,7 @@ mod monitors;
 mod monitors2;
 mod monitors3;
 mod scenario;
+mod scripted;
 mod prng;
 mod profiles;
 mod refmodel;
@@ -63,6 +64,9 @@ pub struct KnownFinding {
     /// optional history precondition: "s3" = run tainted by the S3 precondition
     #[serde(default)]
     pub precondition: String,
+    /// optional stored reproduction (replay file under /verif), re-run by the property's check
+    #[serde(default)]
+    pub replay: String,
 }
 
 pub fn load_known_findings() -> Vec<KnownFinding> {
@@ -235,6 +239,8 @@ fn main() {
         "run" => cmd_run(&args),
         "determinism" => cmd_determinism(&args),
         "triage" => cmd_triage(&args),
+        "scenario" => cmd_scenario(&args),
+        "find" => cmd_find(&args),
         _ => {
             eprintln!("usage: raftsim check <ID> [--tier quick|thorough] [--runs N] | replay <file> | run --profile P --index I | determinism --profile P --runs N");
             2
@@ -461,6 +467,26 @@ fn cmd_check(args: &BTreeMap<String, String>) -> i32 {
     let mut harness_error: Option<String> = None;
     let mut timed_out = false;
 
+    // stored reproductions of the open known findings of this property: replayed on every run, so that the
+    // KNOWN-FINDING line does not depend on the random search hitting the finding within the budget
+    for k in known.iter().filter(|k| k.property == id && k.status.starts_with("open") && !k.replay.is_empty()) {
+        match std::fs::read_to_string(&k.replay).ok().and_then(|s| serde_json::from_str::<ReplayFile>(&s).ok()) {
+            Some(rf) => {
+                let (v, w) = replay(&rf.cluster, &rf.actions, Some(focus));
+                if let Some(v) = v {
+                    if finding_matches(k, &v, !w.ghost.tainted_terms.is_empty()) {
+                        *known_hit.entry(k.description.clone()).or_insert(0) += 1;
+                    } else if v.prop == id {
+                        println!("stored reproduction {} now fails differently: {} {}", k.replay, v.check, v.detail);
+                    }
+                }
+            }
+            None => {
+                eprintln!("harness error: cannot read stored reproduction {}", k.replay);
+                return 2;
+            }
+        }
+    }
     let chunk = 256u64;
     let mut from = 0u64;
     'outer: while from < runs {
@@ -632,4 +658,94 @@ fn cmd_triage(args: &BTreeMap<String, String>) -> i32 {
         println!("{n:6} {c} [{s}] first run {idx}: {d}");
     }
     0
+}
+
+fn cmd_scenario(args: &BTreeMap<String, String>) -> i32 {
+    let name = args.get("arg1").cloned().unwrap_or_default();
+    let s = match name.as_str() {
+        "s3" => scripted::s3(),
+        _ => {
+            eprintln!("usage: raftsim scenario s3 [--write file] [--states]");
+            return 2;
+        }
+    };
+    println!("scenario {name}: {} actions", s.trace.len());
+    if args.contains_key("states") {
+        for x in s.world.nodes.values() {
+            if x.started {
+                println!("  n{} {} {:?} t{} commit{} applied{} last{} conf {:?}", x.id, if x.running() { "up" } else { "DOWN" }, x.obs.role, x.obs.term, x.obs.commit, x.obs.applied, x.obs.last_index, x.obs.conf.voters);
+            }
+        }
+    }
+    match &s.violation {
+        Some(v) => {
+            println!("violation {} {} node {} step {}: {}", v.prop, v.check, v.node, v.step, v.detail);
+            println!("tainted by the stale-configuration precondition: {}", !s.world.ghost.tainted_terms.is_empty());
+            if let Some(path) = args.get("write") {
+                let rf = ReplayFile {
+                    property: v.prop.to_string(),
+                    profile: format!("scripted:{name}"),
+                    seed: 0,
+                    run_index: 0,
+                    run_seed: 0,
+                    minimised: false,
+                    original_actions: s.trace.len(),
+                    cluster: s.world.cfg.clone(),
+                    actions: s.trace.clone(),
+                    expected: Expected { property: v.prop.to_string(), check: v.check.to_string(), step: v.step, node: v.node, sig: v.sig.clone(), detail: v.detail.clone() },
+                };
+                std::fs::write(path, serde_json::to_string_pretty(&rf).unwrap()).unwrap();
+                println!("replay written to {path}");
+            }
+            1
+        }
+        None => {
+            println!("no violation");
+            0
+        }
+    }
+}
+
+/// Search a profile for the first run whose violation signature starts with --sig, minimise it and write
+/// the replay file (used to store reproductions of open known findings).
+fn cmd_find(args: &BTreeMap<String, String>) -> i32 {
+    let pid = args.get("profile").cloned().unwrap_or_else(|| "C01".into());
+    let spec = profiles::spec(&pid);
+    let seed = args.get("seed").and_then(|s| s.parse().ok()).unwrap_or_else(env_seed);
+    let runs: u64 = args.get("runs").and_then(|s| s.parse().ok()).unwrap_or(100000);
+    let sig = args.get("sig").cloned().unwrap_or_default();
+    let out = args.get("write").cloned().unwrap_or_else(|| "/tmp/found.json".into());
+    let focus = focus_of(args);
+    let mut from = 0;
+    while from < runs {
+        let to = (from + 2048).min(runs);
+        let results = run_batch(&spec.profile, seed, from, to, 16, false, focus);
+        for r in results {
+            if let Some(v) = &r.violation {
+                if v.sig.starts_with(&sig) {
+                    let r2 = run_one(&spec.profile, seed, r.index, true, false, focus);
+                    let (cluster, trace) = r2.trace.unwrap();
+                    let (min_trace, mv) = minimise::minimise(&cluster, &trace, v, 60, focus);
+                    let rf = ReplayFile {
+                        property: mv.prop.to_string(),
+                        profile: spec.profile.name.to_string(),
+                        seed,
+                        run_index: r.index,
+                        run_seed: r.run_seed,
+                        minimised: true,
+                        original_actions: trace.len(),
+                        cluster,
+                        actions: min_trace.clone(),
+                        expected: Expected { property: mv.prop.to_string(), check: mv.check.to_string(), step: mv.step, node: mv.node, sig: mv.sig.clone(), detail: mv.detail.clone() },
+                    };
+                    std::fs::write(&out, serde_json::to_string(&rf).unwrap()).unwrap();
+                    println!("found in run {} ({} -> {} actions): {} [{}] {}", r.index, trace.len(), min_trace.len(), mv.check, mv.sig, mv.detail);
+                    return 0;
+                }
+            }
+        }
+        from = to;
+    }
+    println!("not found in {runs} runs");
+    1
 }
